@@ -295,7 +295,12 @@ def x_solve(matrix):
     vc = S.engine()
     vc.hit("solve")
     m0 = [[Sym(v) for v in row] for row in matrix]
-    return SolutionStub(vc, m0)
+    st = SolutionStub(vc, m0)
+    # instances of the clause "a solution exists => truthy": the zero vector, and whatever the harness supplies
+    vc.assume(st.consistent_at([Sym(0)] * st.N), "solve contract instantiated at the zero vector")
+    if "solve" in vc.on_call:
+        vc.on_call["solve"](st)
+    return st
 
 
 T_SOLVE = "Geometry3D.utils.solver:solve"
@@ -315,7 +320,8 @@ def x_normalized(self):
     if "Vector.normalized" in vc.on_call:
         vc.on_call["Vector.normalized"](self)
     n2 = SP.norm2(v)
-    if vc.branch(F(SP.vzero(v))):
+    z = F(SP.vzero(v))
+    if (z if isinstance(z, bool) else vc.branch(z)):
         raise ZeroDivisionError("float division by zero (normalized zero vector)")
     k = vc.fresh("k")
     vc.assume(k > 0, "normalized contract: k > 0")
